@@ -46,14 +46,30 @@ package mount
 //@   pure
 //@   nopanic
 
+// C05 through a mount: an error of the mounted file system names paths in its own namespace; the mount file system hands
+// it on with those paths re-rooted at the mount point (the caller's namespace), everything else unchanged.
+//@ spec mpJoin(mp string, p string) := ite(mp == ".", p, ite(p == "." || p == "", mp, mp + "/" + p))
+//@ spec inMount(r error, e error, mp string) := ite(isPathError(e), isPathError(r) && opOf(r) == opOf(e) && innerErr(r) == innerErr(e) && pathOf(r) == mpJoin(mp, pathOf(e)),
+//@        ite(isLinkError(e), isLinkError(r) && opOf(r) == opOf(e) && innerErr(r) == innerErr(e) && oldOf(r) == mpJoin(mp, oldOf(e)) && newOf(r) == mpJoin(mp, newOf(e)), r == e))
+//@ spec oMount(fs *FS, name string) := ret("mount.(*FS).Mount", 0, fs, name)
+//@ spec oSub(fs *FS, name string) := ret("mount.(*FS).Mount", 1, fs, name)
+
 //@ func (fs *FS) Open(name string) (f hackpadfs.File, err error)
-//@   props C06 C04
+//@   props C06 C04 C05
 //@   modifies world()
-//@   requires fs != nil
-//@   ensures "delegates" f == old(ret("hackpadfs.(FS).Open", 0, ret("mount.(*FS).Mount", 0, fs, name), ret("mount.(*FS).Mount", 1, fs, name))) &&
-//@                       err == old(ret("hackpadfs.(FS).Open", 1, ret("mount.(*FS).Mount", 0, fs, name), ret("mount.(*FS).Mount", 1, fs, name))) &&
-//@                       world() == old(worldAfter("hackpadfs.(FS).Open", ret("mount.(*FS).Mount", 0, fs, name), ret("mount.(*FS).Mount", 1, fs, name)))
-//@   ensures "gate" implies(!VP(name), errIs(err, hackpadfs.ErrInvalid) && world() == old(world()))
+//@   requires fs != nil && fs.rootFS != nil
+//@   ensures "delegates" [C06] implies(VP(name), f == old(ret("hackpadfs.(FS).Open", 0, rOM(fs, name), rOS(fs, name))) &&
+//@                       world() == old(worldAfter("hackpadfs.(FS).Open", rOM(fs, name), rOS(fs, name))))
+//@   ensures "invalid-to-root" [C04 C06] implies(!VP(name), f == old(ret("hackpadfs.(FS).Open", 0, fs.rootFS, name)) && err == old(ret("hackpadfs.(FS).Open", 1, fs.rootFS, name)) &&
+//@                       world() == old(worldAfter("hackpadfs.(FS).Open", fs.rootFS, name)))
+//@   ensures "gate" [C04] implies(!VP(name), errIs(err, hackpadfs.ErrInvalid) && world() == old(world()))
+//@   ensures "caller-namespace" [C05] implies(VP(name), inMount(err, old(ret("hackpadfs.(FS).Open", 1, rOM(fs, name), rOS(fs, name))), old(rOP(fs, name))))
+//@   nopanic
+
+//@ func errInMount(err error, mountPoint string) (r error)
+//@   props C05
+//@   ensures "translated" [C05] inMount(r, err, mountPoint)
+//@   pure
 //@   nopanic
 
 //@ spec amParent(fs *FS, p string) := ret("mount.(*FS).Mount", 0, fs, pdir(p))
@@ -128,22 +144,22 @@ package mount
 //@   ensures "same-name-file" implies(VP(oldname) && VP(newname) && old(rStatErr(fs, oldname)) == nil && oldname == newname && !old(rIsDir(fs, oldname)), err == nil && world() == old(rW1(fs, oldname)))
 //@   ensures "same-name-dir" implies(VP(oldname) && VP(newname) && old(rStatErr(fs, oldname)) == nil && oldname == newname && old(rIsDir(fs, oldname)),
 //@                      isLinkError(err) && oldOf(err) == oldname && newOf(err) == newname && errIs(err, hackpadfs.ErrExist) && world() == old(rW1(fs, oldname)))
-//@   ensures "same-mount" implies(VP(oldname) && VP(newname) && old(rStatErr(fs, oldname)) == nil && oldname != newname && old(rOP(fs, oldname)) == old(rOP(fs, newname)),
-//@                      err == old(retW("hackpadfs.Rename", 0, rW1(fs, oldname), rOM(fs, oldname), rOS(fs, oldname), rOS(fs, newname))) &&
+//@   ensures "same-mount" [C05 C06] implies(VP(oldname) && VP(newname) && old(rStatErr(fs, oldname)) == nil && oldname != newname && old(rOP(fs, oldname)) == old(rOP(fs, newname)),
+//@                      inMount(err, old(retW("hackpadfs.Rename", 0, rW1(fs, oldname), rOM(fs, oldname), rOS(fs, oldname), rOS(fs, newname))), old(rOP(fs, oldname))) &&
 //@                      world() == old(worldAfterW("hackpadfs.Rename", rW1(fs, oldname), rOM(fs, oldname), rOS(fs, oldname), rOS(fs, newname))))
 //@   ensures "cross-dir" implies(VP(oldname) && VP(newname) && old(rStatErr(fs, oldname)) == nil && oldname != newname && old(rOP(fs, oldname)) != old(rOP(fs, newname)) && old(rIsDir(fs, oldname)),
 //@                      isLinkError(err) && oldOf(err) == oldname && newOf(err) == newname && errIs(err, hackpadfs.ErrNotImplemented) && world() == old(rW1(fs, oldname)))
-//@   ensures "cross-open-error" implies(VP(oldname) && VP(newname) && old(rStatErr(fs, oldname)) == nil && oldname != newname && old(rOP(fs, oldname)) != old(rOP(fs, newname)) && !old(rIsDir(fs, oldname)) &&
-//@                      old(rSrcErr(fs, oldname)) != nil, err == old(rSrcErr(fs, oldname)) && world() == old(rW2(fs, oldname)))
-//@   ensures "cross-create-error" implies(VP(oldname) && VP(newname) && old(rStatErr(fs, oldname)) == nil && oldname != newname && old(rOP(fs, oldname)) != old(rOP(fs, newname)) && !old(rIsDir(fs, oldname)) &&
-//@                      old(rSrcErr(fs, oldname)) == nil && old(rDstErr(fs, oldname, newname)) != nil, err == old(rDstErr(fs, oldname, newname)))
+//@   ensures "cross-open-error" [C05 C06] implies(VP(oldname) && VP(newname) && old(rStatErr(fs, oldname)) == nil && oldname != newname && old(rOP(fs, oldname)) != old(rOP(fs, newname)) && !old(rIsDir(fs, oldname)) &&
+//@                      old(rSrcErr(fs, oldname)) != nil, inMount(err, old(rSrcErr(fs, oldname)), old(rOP(fs, oldname))) && world() == old(rW2(fs, oldname)))
+//@   ensures "cross-create-error" [C05 C06] implies(VP(oldname) && VP(newname) && old(rStatErr(fs, oldname)) == nil && oldname != newname && old(rOP(fs, oldname)) != old(rOP(fs, newname)) && !old(rIsDir(fs, oldname)) &&
+//@                      old(rSrcErr(fs, oldname)) == nil && old(rDstErr(fs, oldname, newname)) != nil, inMount(err, old(rDstErr(fs, oldname, newname)), old(rOP(fs, newname))))
 //@   ensures "cross-copy-error" implies(VP(oldname) && VP(newname) && old(rStatErr(fs, oldname)) == nil && oldname != newname && old(rOP(fs, oldname)) != old(rOP(fs, newname)) && !old(rIsDir(fs, oldname)) &&
 //@                      old(rSrcErr(fs, oldname)) == nil && old(rDstErr(fs, oldname, newname)) == nil && implements(old(rDst(fs, oldname, newname)), io.Writer) &&
 //@                      old(rCopyErr(fs, oldname, newname)) != nil, err == old(rCopyErr(fs, oldname, newname)))
-//@   ensures "cross-file" implies(VP(oldname) && VP(newname) && old(rStatErr(fs, oldname)) == nil && oldname != newname && old(rOP(fs, oldname)) != old(rOP(fs, newname)) && !old(rIsDir(fs, oldname)) &&
+//@   ensures "cross-file" [C05 C06] implies(VP(oldname) && VP(newname) && old(rStatErr(fs, oldname)) == nil && oldname != newname && old(rOP(fs, oldname)) != old(rOP(fs, newname)) && !old(rIsDir(fs, oldname)) &&
 //@                      old(rSrcErr(fs, oldname)) == nil && old(rDstErr(fs, oldname, newname)) == nil && implements(old(rDst(fs, oldname, newname)), io.Writer) &&
 //@                      old(rCopyErr(fs, oldname, newname)) == nil,
-//@                      err == old(retW("hackpadfs.Remove", 0, rW4(fs, oldname, newname), rOM(fs, oldname), rOS(fs, oldname))))
+//@                      inMount(err, old(retW("hackpadfs.Remove", 0, rW4(fs, oldname, newname), rOM(fs, oldname), rOS(fs, oldname))), old(rOP(fs, oldname))))
 //@   nopanic
 
 // MountPoints lists exactly the mount table (the observation point of C06): every mount point once, nothing else.
